@@ -2,6 +2,7 @@
 Launcher of a REAL relay server process tree for the end-to-end shards:
     python -m vf.e2e_launch <config.yaml> <gunicorn|uvicorn> <notify_port>
     python -m vf.e2e_launch <config.yaml> roles '<json {pubkey: roles}>'     (a process of its own, before the server)
+    python -m vf.e2e_launch <config.yaml> seed <file with a JSON list of events>  (likewise)
 
 Does what `nostr-relay -c <config> serve` does, minus the alembic step (alembic's env.py
 of this repository asks for a QueuePool on an async engine, which the installed SQLAlchemy
@@ -53,6 +54,21 @@ def main():
                     await st.wait_for_writer()
 
         asyncio.run(_roles())
+        return
+    if mode == "seed":
+        # events stored through the repository's own storage API before the server starts
+        import asyncio
+        import json
+        from nostr_relay.storage import get_storage
+
+        async def _seed():
+            async with get_storage() as st:
+                for ev in json.load(open(sys.argv[3])):
+                    await st.add_event(ev)
+                if hasattr(st, "wait_for_writer"):
+                    await st.wait_for_writer()
+
+        asyncio.run(_seed())
         return
     nport = int(sys.argv[3])
     from nostr_relay import notifier
